@@ -10,6 +10,7 @@ use std::path::Path;
 mod dump;
 mod front;
 mod lsp;
+mod lsppos;
 
 fn diag_json(d: &Diagnostic) -> Value {
     json!({
@@ -87,6 +88,7 @@ fn main() {
         }
         Some("front") => front::main(&args[2..]),
         Some("lsp") => lsp::main(&args[2..]),
+        Some("lsppos") => lsppos::main(&args[2..]),
         _ => {
             eprintln!("usage: lv-harness gen <in.llw> <outdir> | batch-gen | front … | lsp …");
             std::process::exit(2);
